@@ -11,11 +11,13 @@ import (
 
 // R45 PROGRESS (C01, C08, C09) – the descent loop of Search, Delete and Insert moves to a child
 // exactly when it goes round again:
-//   (a) a path that returns to the loop head has moved the cursor to a child on the way (otherwise the
-//       loop spins on the same node: probing an absent key never returns), and
-//   (b) a path that has moved the cursor to a child goes back to the loop head before anything is
-//       returned (otherwise the answer is computed one level too early – "absent" for a key that is
-//       stored below).
+//
+//	(a) a path that returns to the loop head has moved the cursor to a child on the way (otherwise the
+//	    loop spins on the same node: probing an absent key never returns), and
+//	(b) a path that has moved the cursor to a child goes back to the loop head before anything is
+//	    returned (otherwise the answer is computed one level too early – "absent" for a key that is
+//	    stored below).
+//
 // Decided by two forward dataflows over the CFG (may / must "moved since the loop head").
 func ruleR45(c *Ctx) {
 	m := c.m
